@@ -61,10 +61,11 @@ ASSUME CivilAnchors == /\ CivilFromDays(0) = <<1970, 1, 1>>
                        /\ DaysFromCivil(2021, 3, 14) = 18700
 ASSUME CivilRoundTrip == \A d \in DayWindows : CivilLaw(d)
 \* the documented construction on this instance: exact match (UTC), suffix after exactly one '/'
-\* (Gap, Fold), the first candidate wins (A/Gap, not E/Gap), two '/' never match (Gap2 stays unmapped)
+\* (Gap, Fold), the first candidate wins (A/Gap, not E/Gap), a name with two '/' is matched afterwards by its last
+\* part (C/D/Gap2 is Gap2), a Haystack name no tz database entry ends in stays unmapped
 ASSUME MapAsDocumented ==
-    MapFold(MCAllTz, MCHaystack) = [map |-> {<<hGap, nAGap>>, <<hFold, nBFold>>, <<nUTC, nUTC>>},
-                                    todo |-> {hGap2, hMiss}]
+    MapFold(MCAllTz, MCHaystack) = [map |-> {<<hGap, nAGap>>, <<hFold, nBFold>>, <<nUTC, nUTC>>, <<hGap2, nCDGap2>>},
+                                    todo |-> {hMiss}]
 ASSUME OffIsLastTransition ==
     \A i \in 1..Len(MCZoneTab) : Sorted(MCZoneTab[i]) /\
         \A t \in MCInstants : Off(MCZoneTab[i], t) = OffLinear(MCZoneTab[i], t)
